@@ -10,13 +10,34 @@ def pos_of(fn, node):
     return p
 
 
+def cond_holds(fn, c, pol, pred):
+    """pred is implied by condition c having truth value pol.  Conditions that
+    the CFG does not split (a logical expression under `!` or parentheses, as
+    in `if (!(a || b))`) are decomposed here: a true disjunction implies pred
+    when every disjunct does, a false one when any negated disjunct does;
+    dually for conjunctions."""
+    j = fn.strip(c)
+    nd = fn.nodes[j]
+    if nd["k"] == "Un" and nd["op"] == "!":
+        inner = fn.strip(nd["ch"][0])
+        if fn.nodes[inner]["k"] == "Bin" and fn.nodes[inner]["op"] in ("&&", "||"):
+            return cond_holds(fn, inner, not pol, pred)
+    if nd["k"] == "Bin" and nd["op"] in ("&&", "||"):
+        parts = nd["ch"]
+        if (nd["op"] == "||") == pol:
+            # true disjunction / false conjunction: any one of the parts may be the reason
+            return all(cond_holds(fn, p, pol, pred) for p in parts)
+        return any(cond_holds(fn, p, pol, pred) for p in parts)
+    return bool(pred(fn, c, pol))
+
+
 def guard_edges(fn, pred):
     """edges (src,dst) whose branch condition satisfies pred(fn, cond, polarity)"""
     out = []
     for (s, d, c, pol) in fn.cfg.cond_edges():
         if fn.cfg.succs[s][0] == fn.cfg.succs[s][1]:
             continue
-        if pred(fn, c, pol):
+        if cond_holds(fn, c, pol, pred):
             out.append((s, d))
     return out
 
